@@ -484,8 +484,15 @@ var pools = map[uintptr][]pooled{}
 // ResetPools empties every modelled pool (between scenarios).
 func ResetPools() { pools = map[uintptr][]pooled{} }
 
+// ModelPools makes PoolGet/PoolPut use the deterministic free list also when no scheduler
+// is attached (codec builds): what a real sync.Pool hands back depends on the garbage
+// collector and the processor the goroutine runs on, neither of which replays.
+func ModelPools(on bool) { poolModel = on }
+
+var poolModel bool
+
 func PoolGet(p *sync.Pool) any {
-	if !sch.attached.Load() {
+	if !sch.attached.Load() && !poolModel {
 		return p.Get()
 	}
 	addr := uintptr(unsafe.Pointer(p))
@@ -510,7 +517,7 @@ func PoolGet(p *sync.Pool) any {
 }
 
 func PoolPut(p *sync.Pool, x any) {
-	if !sch.attached.Load() {
+	if !sch.attached.Load() && !poolModel {
 		p.Put(x)
 		return
 	}
